@@ -154,25 +154,28 @@ Definition lax_port (dflt : Z) (o : option str) : option Z :=
 
 Definition static_must_refuse (a : static_args) : bool :=
   let bad_name (o : option str) := negb (opt_all subdomain_ok o) in
-  let unsafe (o : option str) := negb (opt_all (endpoint_sound false) o) in
+  let unsafe (o : option str) := negb (opt_all (endpoint_safe false) o) in
   match a_ctlr a, a_class a with Some _, Some _ => false | _, _ => true end ||
   negb (opt_all doc_ctlr (a_ctlr a)) ||
   bad_name (a_class a) || bad_name (a_config a) || bad_name (a_service a) || bad_name (a_lock a) ||
   bad_name (a_secret a) || bad_name (a_client_secret a) || bad_name (a_ca_secret a) ||
   negb (opt_all (fun s => match doc_nsname s with Some _ => true | None => false end) (a_gateway a)) ||
   unsafe (a_endpoint a) || unsafe (a_resolver a) ||
-  (negb (is_nil (a_telemetry_endpoint a)) && negb (endpoint_sound true (a_telemetry_endpoint a))) ||
+  (negb (is_nil (a_telemetry_endpoint a)) && negb (endpoint_safe true (a_telemetry_endpoint a))) ||
   match lax_port 9113 (a_metrics_port a), lax_port 8081 (a_health_port a) with
-  | Some m, Some h => (m =? h)%Z || (m <? 1024)%Z || (65535 <? m)%Z || (h <? 1024)%Z || (65535 <? h)%Z
+  | Some m, Some h =>
+      (* equal ports conflict when both servers are enabled *)
+      ((m =? h)%Z && negb (a_metrics_disable a) && negb (a_health_disable a)) ||
+      (m <? 1024)%Z || (65535 <? m)%Z || (h <? 1024)%Z || (65535 <? h)%Z
   | _, _ => true
   end.
 
 Definition oracle (c : case) : bool :=
   match c with
   | (IEndpoint s, OAccept b) =>
-      implb (doc_endpoint (lit s)) b && implb b (endpoint_sound true (lit s))
+      implb (doc_endpoint (lit s)) b && implb b (endpoint_safe true (lit s))
   | (IEndpointOpt s, OAccept b) =>
-      implb (doc_endpoint_opt (lit s)) b && implb b (endpoint_sound false (lit s))
+      implb (doc_endpoint_opt (lit s)) b && implb b (endpoint_safe false (lit s))
   | (IResName s, OAccept b) =>
       Bool.eqb b (subdomain_ok (lit s)) && implb b (safe_token (lit s))
   | (INamespace s, OAccept b) =>
